@@ -16,6 +16,7 @@ ASSUMPTIONS = ["rustc nightly MIR construction", "Track::distances is the only p
 
 
 def run(ctx):
+    _wiring(ctx)
     ctx.rule('R04.1', 'compatible() true only for equal scene ids')
     ctx.rule('R04.1i', '(shared with C03) idle bound in compatible')
     ctx.rule('R04.1v', '(shared with C20) validate in compatible')
@@ -109,3 +110,10 @@ def batch_result_scene(ctx, R):
         ctx.check(okp, R, pb, tname + ':job-carries-entry-scene', detail[:100],
                   'the voting job is not labelled with the scene id of the batch entry it was built from')
     return n
+
+
+def _wiring(ctx):
+    """name-agreement wiring of the configuration values this property depends on (rules/wiring.py)"""
+    import wiring
+    ctx.rule('R04.3', 'configuration plumbing: same-named fields / parameters / setters / call arguments are not crossed')
+    ctx.floor('R04.3', wiring.run(ctx, 'R04.3', {'scene_id'}), 20)
